@@ -36,8 +36,10 @@ RULE_EDGE = (
     "unparseable values) excluding the nearest 0..5 edges, vehicle_parameters making the nearest 1..3 edges "
     "inadmissible; restriction files carry 0-3 rows per edge in random order (the excluding row first / in the middle / "
     "last, rows of one edge not contiguous) and an edge is admissible iff the vehicle passes EVERY row written for it "
-    "(each row judged by the real VehicleRestriction::valid; the plugin's restriction-file loader is NOT used for the "
-    "expected value), tolerance around the distance of the "
+    "(each row decided by the harness itself: vehicle value and limit brought to SI with exact factors - meters / feet / "
+    "inches, kg / pounds / short tons - admitted iff value <= limit, per axle for maximum_weight_per_axle; vehicle and row "
+    "units differ in many cases, with a margin > 0.5 %; neither the plugin's restriction-file loader nor "
+    "VehicleRestriction::valid is used for the expected value), tolerance around the distance of the "
     "nearest ADMISSIBLE edge in every unit, boundary values, high-latitude cases where the nearer-by-degrees excluded "
     "edge is beyond the tolerance and the admissible one within. Guard families (reference points and queries at lat +-90 / lon +-180 / lon beyond 170, one ulp outside) and tolerance "
     "exactly equal / next-up / next-down of the real distance in Meters as for vertices (distance <= tolerance matches). "
@@ -67,8 +69,10 @@ def run(chk):
         "nearest first), not verified; exercised through the real plugins on every case",
         "f32 haversine: an oracle (values taken from the real function per case); geo::Centroid of the linestrings: "
         "taken from geo (the harness asserts the centroid is the intended grid point)",
-        "VehicleRestriction::valid / VehicleParameters::from_query: verdict per restriction ROW taken from the real functions (C04's "
-        "arithmetic); the conjunction over all rows of an edge is computed by the harness from the rows it wrote, not by the loader",
+        "SPECIFICATION of a restriction row (harness, row_admits): the vehicle's quantity in SI <= the limit in SI, exact factors "
+        "(1 ft = 0.3048 m, 1 in = 0.0254 m, 1 lb = 0.45359237 kg, 1 short ton = 2000 lb); of the query's vehicle parameters "
+        "(spec_vehicle_parameters): as the unchanged from_query reads them; VehicleRestriction::valid itself is C04's subject and is "
+        "only exercised through the plugin",
         "SPECIFICATION constants: exact SI metres per DistanceUnit (MM.si_m) and the relative band 5e-4 (MM.unit_band) "
         "inside which a distance counts as 'at' the tolerance (left open by the property)",
         "coq/Gen/UnitTables.v regenerated from distance_unit.rs by translator/tr_units.py (checked bit for bit by C09)",
